@@ -26,7 +26,7 @@
    over the world of ranks, tied exactly to the implementation by bin/check C12): termination
    within the fuel and the partition invariant across rank boundaries are proved. *)
 From Amgcl Require Import Scalar QcInst Vec Crs Kernels KernelsProofs MatOps Dist DistProofs Krylov KrylovProofs
-                          DistSolve DistSolveProofs DistSolveTruth Pmis PmisProofs PmisPartition.
+                          DistSolve DistSolveProofs DistSolveTruth Pmis PmisProofs PmisPartition PmisOracle.
 From Coq Require Import QArith_base Qcanon.
 Local Close Scope Q_scope.
 Local Close Scope Qc_scope.
@@ -240,6 +240,17 @@ Theorem C12_pmis_columns_partition (parts : list nat) (G : list (list nat)) :
     (forall c, c < psum parts -> lonely parts G c = false -> nth c cols None <> None).
 Proof. exact (pmis_columns_partition parts G). Qed.
 
+(* the oracle that bin/check C12 evaluates on the IMPLEMENTATION's gathered P_tent (DistSolve.partition_ok: at most one
+   unit entry per row, every coarse column hit) is met by the model's P_tent, for every world *)
+Theorem C12_pmis_model_passes_partition_oracle (S : Scalar) (Seqb : seqb_spec S) (parts : list nat) (G : list (list nat)) :
+  (forall i, i < psum parts -> In i (grow G i)) ->
+  exists cols nas, pmis_columns parts G = Some (cols, nas) /\ partition_ok (ptent_of S cols (psum nas)) = true.
+Proof. exact (pmis_model_passes_partition_oracle S Seqb parts G). Qed.
+Theorem C12_pmis_model_passes_partition_oracle_Qc (parts : list nat) (G : list (list nat)) :
+  (forall i, i < psum parts -> In i (grow G i)) ->
+  exists cols nas, pmis_columns parts G = Some (cols, nas) /\ partition_ok (ptent_of QcS cols (psum nas)) = true.
+Proof. exact (C12_pmis_model_passes_partition_oracle QcS QcS_eqb parts G). Qed.
+
 (* what "lonely" (removed before the rounds, never aggregated in a structurally symmetric world) means: the row of the
    strength matrix holds nothing but the diagonal; so C12_pmis_partition says: every unknown with a strong connection to
    another unknown -- on whichever rank -- is in exactly one aggregate *)
@@ -259,5 +270,7 @@ Print Assumptions C12_pmis_round_progress.
 Print Assumptions C12_pmis_terminates.
 Print Assumptions C12_pmis_partition.
 Print Assumptions C12_pmis_columns_partition.
+Print Assumptions C12_pmis_model_passes_partition_oracle.
+Print Assumptions C12_pmis_model_passes_partition_oracle_Qc.
 Print Assumptions C12_pmis_lonely_iff_isolated.
 Print Assumptions C12_pmis_depends_on_partition.
